@@ -36,6 +36,10 @@ type splitCase struct {
 	Order    int      `json:"registration_order_seed"`
 	// the base listener reports its closure with its own sentinel error instead of net.ErrClosed
 	OwnSentinel bool `json:"base_listener_closes_with_own_sentinel,omitempty"`
+	// LateConsumerMs: the applications behind the sub-listeners call Accept for the first time only this
+	// long after the split listener started routing (a consumer that starts late, or backs off); a
+	// routed connection has to wait for them
+	LateConsumerMs int `json:"consumers_start_accepting_after_ms,omitempty"`
 }
 
 type splitClient struct {
@@ -111,6 +115,9 @@ func runSplitCase(c *engine.Ctx, s *world.Server, node *world.Node, sc splitCase
 		subWG.Add(1)
 		go func(name string, ln net.Listener) {
 			defer subWG.Done()
+			if sc.LateConsumerMs > 0 {
+				time.Sleep(time.Duration(sc.LateConsumerMs) * time.Millisecond)
+			}
 			for {
 				conn, err := ln.Accept()
 				if err != nil {
@@ -303,6 +310,9 @@ waitStart:
 	if sc.OwnSentinel {
 		r.Count("base_listener_closed_with_own_sentinel", 1)
 	}
+	if sc.LateConsumerMs > 0 {
+		r.Count("topologies_with_late_consumers", 1)
+	}
 	done := make(chan struct{})
 	go func() { subWG.Wait(); close(done) }()
 	select {
@@ -379,6 +389,13 @@ func runSplit(c *engine.Ctx) engine.Result {
 			}
 		}
 	}
+	// consumers that start accepting late: 3 s once (quick), and 3 s and 7 s in three topologies (thorough)
+	late := []splitCase{{Topology: []string{"A", nodenet.AuthenticatedNonSpecificNextProto, nodenet.UnauthenticatedNextProto}, LateConsumerMs: 3000}}
+	if !c.Quick() {
+		late = append(late, splitCase{Topology: []string{"A", "B"}, Native: true, LateConsumerMs: 7000},
+			splitCase{Topology: []string{nodenet.AuthenticatedNonSpecificNextProto}, LateConsumerMs: 3000, OwnSentinel: true})
+	}
+	cases = append(cases, late...)
 	r.Sample(cases[5])
 	r.Sample(map[string]any{"clients": splitClients})
 	engine.ForEach(len(cases), engine.Workers(), func(i int) { runSplitCase(c, s, er.Node, cases[i]) })
@@ -390,5 +407,6 @@ func runSplit(c *engine.Ctx) engine.Result {
 	r.Require("closed_as_expected:fetch", 5)
 	r.Require("sublisteners_reported_closed", 10)
 	r.Require("base_listener_closed_with_own_sentinel", 10)
+	r.Require("topologies_with_late_consumers", 1)
 	return res
 }
